@@ -10,6 +10,7 @@ recorded decisions.  Exhausting the queue exhausts the path tree.
 """
 import time
 import zlib
+from fractions import Fraction as _Fraction
 import z3
 
 
@@ -307,6 +308,8 @@ def _r(o):
         return z3.RealVal(o)
     if isinstance(o, float):
         return z3.RealVal(repr(o))
+    if isinstance(o, _Fraction):
+        return z3.Q(o.numerator, o.denominator)
     raise TypeError(type(o))
 
 
